@@ -30,7 +30,7 @@ def gen(rng, tier):
         focus["kinds"] = ks
     if rng.random() < 0.5:
         focus["density"] = 0.5
-    spec = C.gen_edit(rng, C.maybe_prelude_backward(rng, C.maybe_history(rng, C.forward_spec(rng, tier, focus), 0.3), 0.1))
+    spec = C.gen_edit(rng, C.maybe_prelude_backward(rng, C.maybe_dep_edit(rng, C.maybe_history(rng, C.forward_spec(rng, tier, focus), 0.3), 0.3), 0.1))
     if rng.random() < 0.1 and not (spec.get("history") or {}).get("reload") and spec.get("prelude_backward") is None:
         # a predecessor that is not an element of the simulated workflow (a task of another project): its state is what it is
         n = len(spec["model"]["tasks"])
